@@ -198,6 +198,19 @@ DEFAULT_GROUPS = {
         ("o", "Fl", ["obj", [["x", ["float", "2.5e-15"]]]]),
         ("ol", "[Fl]", ["list", [["obj", []], ["obj", [["y", ["float", "3.141592653589793"]]]]]]),
     ],
+    # a SINGLE value standing for a list default (list input coercion wraps it), depth 1 and 2
+    "list-single": [
+        ("a", "[Int]", I(1)),
+        ("b", "[[Int]]", I(2)),
+        ("c", "[[Int]]", ["list", [I(1), I(2)]]),
+        ("d", "[Color]", ["enum", "GREEN"]),
+        ("e", "[[Color!]]", ["enum", "RED"]),
+        ("f", "[Inp]", ["obj", [["k", I(1)]]]),
+        ("g", "[[Inp]]", ["obj", [["k", I(2)]]]),
+        ("h", "[[Inp]]", ["list", [["obj", [["k", I(3)]]]]]),
+        ("i", "[String!]!", ["str", "x"]),
+        ("j", "[Float]", ["float", "1.5"]),
+    ],
     "string": [
         ("a", "String", ["str", "abc"]),
         ("b", "String", ["str", 'q"uo\\te']),
@@ -231,7 +244,13 @@ def ensure_float_input(sm):
     _add_type(sm, mk_type("input", "Fl", fields=[mk_ival("x", "Float", default=["float", "0.1"]), mk_ival("y", "Float!", default=["float", "1.0"]), mk_ival("z", "[Float]", default=["list", [["float", "1e-13"]]])]))
 
 
-_NEEDS = {"float-precise": ensure_float_input, "enum": ensure_enum, "obj": ensure_input, "scalar": ensure_scalar, "scalar-numstr": ensure_scalar}
+def ensure_list_single(sm):
+    ensure_enum(sm)
+    ensure_input(sm)
+    sm["directives"].append(_dir("single", ["FIELD"], [mk_ival("xs", "[Inp]", default=["obj", [["k", I(1)]]]), mk_ival("n", "[[Int]]", default=I(1)), mk_ival("c", "[Color!]", default=["enum", "BLUE"])]))
+
+
+_NEEDS = {"list-single": ensure_list_single, "float-precise": ensure_float_input, "enum": ensure_enum, "obj": ensure_input, "scalar": ensure_scalar, "scalar-numstr": ensure_scalar}
 
 
 def _f_default(group):
@@ -669,7 +688,7 @@ for _i, _w in enumerate(WRAPPERS):
 # large, self-contained features: enumerated alone and with a few carriers only (see feature_sets)
 _reg("w:deep", f_wrap_deep, extra=["k:enum", "k:input", "desc:one"])
 for _g in DEFAULT_GROUPS:
-    _reg("d:" + _g, _f_default(_g), extra=(["k:input", "dir:def", "desc:one"] if _g == "float-precise" else None))
+    _reg("d:" + _g, _f_default(_g), extra=(["k:input", "dir:def", "desc:one"] if _g in ("float-precise", "list-single") else None))
 _reg("d:nested-defaults", f_nested_defaults, extra=["k:enum", "k:input", "dir:applied"])
 _reg("dep:field", f_dep_field)
 _reg("dep:enum", f_dep_enum)
